@@ -190,8 +190,9 @@ def gen(run):
     # when it arrives through a reference between text and a variable.  All portable projects at L1; the first and the last project of
     # literals (the extremes are in the last one) and the first project of arguments also go through the generated code (L2)
     nums, _ = loadfam.gen_cases(run, "MC_Numbers", "MC_Numbers.cfg", workers=1)
-    nums = [c for c in nums if c["family"] == "numbers"]
-    lits = [c for c in nums if "tgt" not in c["abs"]["P"]["vals"]["en"]]
+    # ("numbers-arms": numbers as the value of range arms and plural forms, selected by literal counts - L1 and L2)
+    nums = [c for c in nums if c["family"] in ("numbers", "numbers-arms")]
+    lits = [c for c in nums if c["family"] == "numbers" and "tgt" not in c["abs"]["P"]["vals"]["en"]]
     args = [c for c in nums if "tgt" in c["abs"]["P"]["vals"]["en"]]
     if not lits or not args:
         raise vp.ToolError("MC_Numbers produced no projects")
@@ -200,7 +201,7 @@ def gen(run):
         raise vp.ToolError("MC_Numbers: the project with the extremes is missing")
     l2 = [id(lits[0]), id(ext[0]), id(args[0])]
     for c in nums:
-        if id(c) not in l2:
+        if c["family"] == "numbers" and id(c) not in l2:
             c["family"] = "numbers/l1"
     fams += nums
     return graphs, fams
